@@ -105,10 +105,10 @@ pub fn spec(check: &str, tier: &str) -> Option<CheckSpec> {
             progs.extend(fam::lock_arrival_family(tier));
             progs.extend(fam::mix_programs(tier));
             progs.extend(fam::yield_ins_family(tier));
-            for k in ["FINS", "LINS", "MINS"] {
+            for k in ["FINS", "LINS", "MINS", "TINS"] {
                 progs.extend(fam::op_ins_family(if tier == "quick" { 2 } else { 8 }, k, true));
             }
-            level.push_str("; SPIN+LOCK; MIX (blocks of different primitive kinds); YINS (yield_now inserted at every position of small A-sc / LOCK programs); FINS / LINS / MINS (a SeqCst fence / a relaxed load of an unrelated atomic / a lock-unlock of an unrelated mutex inserted likewise: must change nothing)");
+            level.push_str("; SPIN+LOCK; MIX (blocks of different primitive kinds); YINS (yield_now inserted at every position of small A-sc / LOCK programs); FINS / LINS / MINS / TINS (a SeqCst fence / a relaxed load of an unrelated atomic / a lock-unlock of an unrelated mutex / an extra thread spawned and joined by main, inserted likewise into A-sc, LOCK, WAIT and CHAN programs: must change nothing)");
             Some(CheckSpec {
                 id: "C01",
                 level: "model_checking",
